@@ -60,6 +60,19 @@ Theorem C12_failed_tx_keeps_no_logs : forall progs fuel target value th ti orig 
 Proof. exact failed_tx_logs. Qed.
 Print Assumptions C12_failed_tx_keeps_no_logs.
 
+(* Block level: the log list a receipt reads (GetLogs of its hash right after its transaction) is not changed by
+   any later transaction with a different hash executed on the same state object; and well-formedness of the
+   revision stack (hypothesis of the theorems above) holds for a fresh state and is kept by every transaction. *)
+Theorem C12_later_txs_keep_logs : forall progs fuel ts s h,
+  wf s -> (forall t, In t ts -> t_hash t <> h) -> logs (dat (exec_txs progs fuel ts s)) h = logs (dat s) h.
+Proof. exact later_txs_keep_logs. Qed.
+Print Assumptions C12_later_txs_keep_logs.
+
+Theorem C12_wf_reachable :
+  (forall d th ti orc, wf (mkState d [] [] 0 th ti orc)) /\
+  (forall progs fuel t s o l s', wf s -> exec_tx progs fuel t s = (o, l, s') -> wf s').
+Proof. exact (conj wf_fresh exec_tx_wf). Qed.
+
 (* Prepare as it was before the repair (fix 4ddf729): the next transaction reads the previous one's TSTORE. *)
 Theorem C12_transient_leak_old_refuted :
   let '(_, _, s1) := exec_tx progsT 5 (mkTx 1 0 1 (TCall 11 0) []) s0 in
@@ -72,7 +85,7 @@ Theorem C12_returned_logs_refuted :
    o = OOk /\ length l = 1%nat /\ logs (dat s1) 1 = []) /\
   (let '(o, l, s1) := exec_tx progsC 5 (mkTx 1 0 1 (TCall 11 0) []) s0 in
    o = OOk /\ l = [] /\ length (logs (dat s1) 1) = 1%nat).
-Proof. exact (conj returned_logs_leak returned_logs_drop). Qed.
+Proof. split; [exact returned_logs_leak | exact returned_logs_drop]. Qed.
 
 (* Opcode table of the current sources (Table.v, regenerated from src/vm and compared with the live table on every
    run): the obligation "an opcode that reaches a state mutator is flagged writes or guards itself" FAILS for
